@@ -91,6 +91,9 @@ func runWorker(bin string, j simkit.Job, gomaxprocs int, extraTimeout time.Durat
 	}
 	defer os.RemoveAll(dir)
 	j.Out = filepath.Join(dir, "out.json")
+	if j.Mode == "search" {
+		j.Breadcrumb = filepath.Join(dir, "breadcrumb")
+	}
 	j.Scratch = filepath.Join(dir, "scratch")
 	_ = os.MkdirAll(j.Scratch, 0o755)
 	jp := filepath.Join(dir, "job.json")
@@ -117,12 +120,81 @@ func runWorker(bin string, j simkit.Job, gomaxprocs int, extraTimeout time.Durat
 	}
 	var res simkit.Result
 	if lerr := simkit.LoadJSON(j.Out, &res); lerr != nil {
-		return nil, fmt.Errorf("worker %d left no result (%v, exit: %v); output:\n%s", j.Worker, lerr, err, tail(outb.String(), 6000))
+		out := outb.String()
+		if cr := crashInCodeUnderTest(out); cr != "" {
+			idx := int64(-1)
+			if b, rerr := os.ReadFile(j.Breadcrumb); rerr == nil {
+				if v, perr := strconv.ParseInt(strings.TrimSpace(string(b)), 10, 64); perr == nil {
+					idx = v
+				}
+			}
+			return nil, &crashError{worker: j.Worker, run: idx, panicLine: cr, output: tail(out, 6000)}
+		}
+		return nil, fmt.Errorf("worker %d left no result (%v, exit: %v); output:\n%s", j.Worker, lerr, err, tail(out, 6000))
 	}
 	if res.Error != "" {
 		return &res, fmt.Errorf("worker %d: %s", j.Worker, res.Error)
 	}
 	return &res, nil
+}
+
+// crashError: the worker process died of a Go panic raised in the code under
+// test (not in the harness).
+type crashError struct {
+	worker    int
+	run       int64
+	panicLine string
+	output    string
+}
+
+func (c *crashError) Error() string {
+	return fmt.Sprintf("worker %d crashed in run %d: %s", c.worker, c.run, c.panicLine)
+}
+
+// crashInCodeUnderTest returns the panic line if out is the dying message of a
+// process whose panicking goroutine was running code of the repository (the
+// first frames after the panic machinery are in /repo or the scratch tree, not
+// in the harness).
+func crashInCodeUnderTest(out string) string {
+	i := strings.LastIndex(out, "\npanic: ")
+	if i < 0 {
+		if strings.HasPrefix(out, "panic: ") {
+			i = -1
+		} else if k := strings.LastIndex(out, "\nfatal error: "); k >= 0 {
+			i = k
+		} else {
+			return ""
+		}
+	}
+	rest := out[i+1:]
+	line := rest
+	if nl := strings.IndexByte(rest, '\n'); nl >= 0 {
+		line = rest[:nl]
+	}
+	// first goroutine block after the panic line
+	blk := rest
+	if g := strings.Index(rest, "\ngoroutine "); g >= 0 {
+		blk = rest[g:]
+		if e := strings.Index(blk[1:], "\n\n"); e >= 0 {
+			blk = blk[:e+1]
+		}
+	}
+	rp := repoPath()
+	for _, l := range strings.Split(blk, "\n") {
+		l = strings.TrimSpace(l)
+		if !strings.HasPrefix(l, "/") {
+			continue
+		}
+		if strings.Contains(l, "/src/runtime/") || strings.Contains(l, "/src/internal/") {
+			continue
+		}
+		// the first source line that is not the runtime's decides
+		if strings.HasPrefix(l, rp+"/") {
+			return line
+		}
+		return ""
+	}
+	return ""
 }
 
 func tail(s string, n int) string {
@@ -244,6 +316,11 @@ func replayFile(path string, verbose bool) int {
 	j := simkit.Job{Property: rp.Property, Engine: eng, Mode: "replay", Tier: "quick", Seed: rp.Seed, Replay: abs,
 		ReplayDir: filepath.Join(verifRoot, "replays"), BudgetMS: 120000, Args: d.Args}
 	res, err := runWorker(bin, j, 2, 5*time.Minute)
+	if ce, ok := err.(*crashError); ok {
+		fmt.Printf("reproduced: the worker process died again: %s\n%s\n", ce.panicLine, ce.output)
+		fmt.Printf("VIOLATION property=%s replay=%s\n", rp.Property, abs)
+		return 1
+	}
 	if err != nil {
 		die2("%v", err)
 	}
@@ -380,7 +457,29 @@ func runCheck(id, tier string) int {
 	// verdict.  But what healthy workers found and a fresh process confirms is
 	// still reported; only if there is nothing of that kind is the run exit 2.
 	var trouble []string
+	var crashViols []simkit.Violation
 	for w, e := range errs {
+		if ce, ok := e.(*crashError); ok && ce.run >= 0 {
+			// a panic in the code under test: name the run in a replay file and see
+			// whether producing that run again kills a fresh process the same way
+			rg := map[string]any{"regenerate": simkit.Regenerate{Seed: seed, Worker: w, Workers: workers, Run: ce.run, Tier: tier}}
+			cb, _ := json.Marshal(rg)
+			rp := simkit.Replay{Property: id, Engine: engines[w], Invariant: "no-panic", Signature: "Go panic in the code under test", Message: ce.panicLine + "\n" + ce.output, Seed: seed, Case: cb,
+				Note: "the case is a generated run, named by seed, worker and run number; replaying produces it again"}
+			path := filepath.Join(replayDir, fmt.Sprintf("%s-no-panic-%d-w%d-r%d.json", id, seed, w, ce.run))
+			if simkit.SaveJSON(path, &rp) == nil {
+				j := simkit.Job{Property: id, Engine: engines[w], Mode: "replay", Tier: tier, Seed: seed, Replay: path, ReplayDir: replayDir, BudgetMS: 120000, Args: d.Args}
+				_, rerr := runWorker(bins[w], j, 2, 5*time.Minute)
+				if rce, ok := rerr.(*crashError); ok {
+					crashViols = append(crashViols, simkit.Violation{Property: id, Invariant: "no-panic", Signature: "Go panic in the code under test",
+						Message: rce.panicLine, Seed: seed, Run: ce.run, Replay: path, Fatal: true})
+					results[w] = simkit.NewResult(&simkit.Job{Property: id, Engine: engines[w]})
+					results[w].Engine = engines[w]
+					errs[w] = nil
+					continue
+				}
+			}
+		}
 		if e != nil {
 			trouble = append(trouble, e.Error())
 			if results[w] == nil {
@@ -389,7 +488,7 @@ func runCheck(id, tier string) int {
 			}
 		}
 	}
-	anyViolation := false
+	anyViolation := len(crashViols) > 0
 	for _, r := range results {
 		if len(r.Violations) > 0 {
 			anyViolation = true
@@ -441,6 +540,7 @@ func runCheck(id, tier string) int {
 	if len(tot.Samples) > 3 {
 		tot.Samples = tot.Samples[:3]
 	}
+	viols = append(viols, crashViols...)
 	// violations: dedupe, confirm in a fresh process, filter known findings
 	sort.Slice(viols, func(i, j int) bool {
 		if viols[i].Invariant != viols[j].Invariant {
@@ -457,8 +557,8 @@ func runCheck(id, tier string) int {
 			continue
 		}
 		seen[key] = true
-		confirmed := false
-		if v.Replay != "" {
+		confirmed := v.Invariant == "no-panic" && v.Fatal // confirmed above: the regenerated run crashed a fresh process again
+		if v.Replay != "" && !confirmed {
 			var rp simkit.Replay
 			rbin, reng := bin, d.Engine
 			if simkit.LoadJSON(v.Replay, &rp) == nil && rp.Engine != "" && rp.Engine != d.Engine {
